@@ -94,7 +94,7 @@ PAR = {
                 rule="readers on clones while the main handle writes (input write / synthetic write / revision-preserving LRU capacity "
                      "change or eviction) at a seeded point; parwritenest: nested fixpoint cycles cancelled mid-iteration and "
                      "re-evaluated in the same revision"),
-    "C21": dict(models=["cancel"], par=["parcancel", "parcancelfix", "parcancelnest"], monitors=("par",), needs=["cancel_begin", "tstart"],
+    "C21": dict(models=["cancel"], par=["parcancel", "parcancelfix", "parcancelnest", "parcancelacc"], monitors=("par",), needs=["cancel_begin", "tstart"],
                 rule="local cancellation tokens cancelled at seeded points while 2-4 threads run requests (incl. fixpoint programs; "
                      "parcancelnest: plain consumers above nested fixpoint cycles that keep requesting after the cycle)"),
 }
@@ -106,7 +106,7 @@ TIERS = {
 # families that need long histories
 NOPS_FACTOR = {"churn": 3, "reclaim": 2}
 # template families that need many samples
-JOBS_FACTOR = {"fixshape": 5, "fbshape": 3, "parmemo": 3, "paralloc": 0.5, "parpaniccancel": 3}
+JOBS_FACTOR = {"fixshape": 5, "fbshape": 3, "parmemo": 3, "paralloc": 0.5, "parpaniccancel": 3, "parcancelacc": 3}
 
 ASSUME_SEQ = [
     "TLC evaluates specs/core/CoreTrace.tla + Sem.tla faithfully; the harness interpreter logs what it does",
@@ -438,12 +438,15 @@ def run_fault(pid, tier, seed, replay):
                 f.write(json.dumps(j, separators=(",", ":")) + "\n")
         run_driver(binary, "seq", jp, tp)
         cbs = {}
+        eqs = {}
         cur = None
         for line in open(tp):
             if '"e":"reset"' in line[:40]:
                 cur = json.loads(line)["job"]
             elif '"e":"dbdrop_end"' in line[:40]:
                 cbs[cur] = json.loads(line).get("cbs", 0)
+            elif '"e":"eq"' in line and '"cbn"' in line:
+                eqs.setdefault(cur, set()).add(json.loads(line)["cbn"])
         jobs = []
         total = 0
         for j in base:
@@ -451,8 +454,9 @@ def run_fault(pid, tier, seed, replay):
             total += n
             ks = list(range(1, n + 1))
             if len(ks) > cap:
+                # every PartialEq point (backdating comparisons) and an even sample of the others
                 step = len(ks) / cap
-                ks = sorted({ks[int(x * step)] for x in range(cap)})
+                ks = sorted({ks[int(x * step)] for x in range(cap)} | {k for k in eqs.get(j["id"], ()) if k <= n})
             for k in ks:
                 jj = dict(j)
                 jj["id"] = len(jobs) + 1
